@@ -523,10 +523,21 @@ def r19_multiplier_last(ctx):
     ctx.check(rets == ['self.weight', 'self.weight * self.multiplier'], R, vote.node, vote,
               'a ballot line\'s value is its (already rounded) weight times its multiplier',
               'Ballot.vote returns self.weight * self.multiplier (self.weight when the multiplier is 1)', 'Ballot.vote returns %s' % rets)
+    # the multiplier is never an operand of a comparison between arithmetic values: a Guarded comparison records the distance of its
+    # operands in the class statistics (maxDiff / minDiff), which the report prints - `multiplier == V1` records |m - 1|, a figure
+    # that changes when identical ballots are split over lines or merged
+    for f in repo.funcs.values():
+        if not f.module.name.startswith('droop') or f.module.name == 'droop.profile':
+            continue
+        for x in f.own_nodes():
+            if isinstance(x, ast.Compare) and any(isinstance(o, ast.Attribute) and o.attr == 'multiplier' for o in [x.left] + list(x.comparators)):
+                ctx.bad(R, x, f, 'a line multiplier is never compared as an arithmetic value (comparisons of guarded values feed the printed statistics)',
+                        '`%s` compares the multiplier with an arithmetic value: under guarded arithmetic the comparison records |multiplier - 1| in '
+                        'maxDiff / minDiff, so the report of the same ballots differs with the way they are grouped into lines' % unparse(x))
     fast = [x for x in vote.own_nodes() if isinstance(x, ast.If)]
-    okf = len(fast) == 1 and unparse(fast[0].test) == 'self.multiplier == self.E.V1' and unparse(fast[0].body[0]) == 'return self.weight'
-    ctx.check(okf, R, vote.node, vote, 'the multiplier-1 shortcut of Ballot.vote is taken only for multiplier 1',
-              'if self.multiplier == self.E.V1: return self.weight', 'shortcut condition changed', nontrivial=False)
+    okf = len(fast) <= 1 and all(unparse(f_.body[0]) == 'return self.weight' for f_ in fast)
+    ctx.check(okf, R, vote.node, vote, 'the multiplier-1 shortcut of Ballot.vote (if any) returns the bare weight',
+              'if <multiplier is one>: return self.weight', 'shortcut changed', nontrivial=False)
     for f in repo.funcs.values():
         if not f.module.name.startswith('droop'):
             continue
@@ -560,7 +571,7 @@ def r19_multiplier_last(ctx):
                 ctx.check(ok, R, x, f, 'the ballot multiplier is applied last: the product only feeds additive accumulators',
                           how, '`%s` flows into `%s`: the multiplier takes part in a rounded operation, so splitting or merging identical '
                                'ballots changes the result' % (unparse(x), stmt_text(repo.enclosing_stmt(x))))
-    ctx.floor(R, 'multiplier products', n, 9)
+    ctx.floor(R, 'multiplier products', n, 6)
     # no weight / keep computation has the multiplier (or the multiplied ballot value) among its inputs
     for f in repo.funcs.values():
         if not f.module.name.startswith('droop.rules'):
@@ -639,6 +650,18 @@ def r20_order_free_loops(ctx):
                           'no break/return; stores only to fields of the ballot itself, to locals, and additive `+=`/`-=` accumulators',
                           'the result of this ballot loop depends on how the ballots are written (order / grouping of lines): %s at line %s' % (bad[0][0], bad[0][1].lineno) if bad else '')
     ctx.floor(R, 'ballot loops', n, 25)
+    # the NUMBER OF LINES is presentation too: len(E.ballots) / len(E.ballotsEqual) / len(<profile>.ballotLines) never enters the count
+    # (a line stands for `multiplier` ballots; the ballot total is E.nBallots)
+    for f in ctx.repo.funcs.values():
+        if not f.module.name.startswith('droop') or f.module.name == 'droop.profile':
+            continue
+        for x in f.own_nodes():
+            if isinstance(x, ast.Call) and isinstance(x.func, ast.Name) and x.func.id == 'len' and len(x.args) == 1:
+                a = x.args[0]
+                p_ = ctx.canon(a, f) or ''
+                if p_ in ('E.ballots', 'E.ballotsEqual') or (isinstance(a, ast.Attribute) and a.attr in ('ballotLines', 'ballotLinesEqual', 'ballots', 'ballotsEqual')):
+                    ctx.bad(R, x, f, 'the number of ballot LINES is never used as a quantity (it changes when identical ballots are merged or split)',
+                            '`%s` counts lines, not ballots: the same ballots written with other multipliers give another figure' % unparse(x))
 
 
 # ---------------------------------------------------------------------------
